@@ -1360,6 +1360,21 @@ def call_builtin(ip, st, f, args, kwargs):
     r = ip.task.call_real(ip, st, f, args, kwargs)
     if r is not NotImplemented:
         return r
+    if isinstance(f, (types.MethodDescriptorType, types.WrapperDescriptorType)) and getattr(f, "__objclass__", None) is list and args \
+            and isinstance(args[0], SObj) and getattr(args[0], "base_list", None):
+        # `list.<method>(self, ...)` on an object of a list subclass: the unbound form of `super().<method>(...)` when
+        # list is the next class in the MRO that defines it -- the same single list operation on the object's own
+        # list part, recorded in its ghost trace of list operations (x.__delitem__(i) is `del x[i]`, etc.)
+        obj, rest, name = args[0], list(args[1:]), f.__name__
+        lref = obj.fields[obj.base_list]
+        if name == "__delitem__" and len(rest) == 1 and not kwargs:
+            r = list_delitem(ip, st, lref, st.force(rest[0]))
+        elif name == "__setitem__" and len(rest) == 2 and not kwargs:
+            r = list_setitem(ip, st, lref, st.force(rest[0]), rest[1])
+        else:
+            r = list_method(ip, st, lref, name, rest, kwargs)
+        obj.trace.append(("list-op", name, getattr(lref, "last_removed", None)))
+        return r
     if isinstance(f, operator.attrgetter) and len(args) == 1 and not kwargs:
         # operator.attrgetter('a.b', ...)(obj): CPython reads the (dotted) attributes of obj, one value for one name,
         # a tuple for several.  The names are recovered from the object's pickle form (attrgetter, names).
